@@ -36,7 +36,7 @@ CLAIMS = {
  "C03": dict(
    text="Proof (Verus) of the real decorate_request (metadata = latest key id, a freshly drawn 32-byte nonce, exactly the serialised body; the URI gets exactly one cup2key=<id>:<hex nonce> parameter; body untouched), "
         "HttpUriExt::append_query_parameter (scheme/authority kept, path and existing query kept, &key=value or ?key=value appended), Nonce::new (fresh draw token), StandardCupv2Handler::new (latest id), "
-        "and, in the state-machine group, that the CUP handler stays configured across every exchange.",
+        "Display for Nonce (the real impl over a formatter stand-in: the full lower-case hex of all 32 bytes), and, in the state-machine group, that the CUP handler stays configured across every exchange and that every attempt's request id is drawn anew.",
    note=TRUST + "format! contracts are generated from the literal; Uri parsing/printing is a stand-in (text of a parsed value equals the parsed string); nonce uniqueness across requests reduces to 'each request consumes one fresh RNG draw' "
         "(distinctness of draws is an assumption on thread_rng); RequestBuilder::build's use of the same Intermediate for wire body and metadata is claimed under C15 when that group is present.",
    technique="contract-based deductive verification (Verus) of mechanically extracted functions", design="4/C03"),
@@ -100,9 +100,9 @@ CLAIMS = {
    technique="contract-based deductive verification (Verus) with ghost interaction logs", design="4/C12"),
  "C14": dict(
    text="Proof (Verus): absence of panics/overflow (arithmetic, unwrap, index, callee preconditions) in every verified state-machine unit including the 475-line perform_update_check, Context::load on arbitrary stored integers, "
-        "the time conversions, with all environment answers and all storage results unconstrained.",
+        "the time conversions, with all environment answers and all storage results unconstrained; the response-body guard stripper parse_safe_json by a Kani harness on its extracted text (bounded: bodies up to 12 bytes, labelled).",
    note=SMNOTE + "Dependencies (serde_json, http, hyper) and termination of run are out of scope; pinned fragments are assumed panic-free under their stated preconditions.",
-   technique="contract-based deductive verification (Verus): safety obligations of every unit", design="4/C14"),
+   technique="contract-based deductive verification (Verus): safety obligations of every unit", design="4/C14", kani=True),
  "C18": dict(
    text="Proof (Verus) of record_update_first_seen_time (same plan: stored time, no write; new plan: id, time, commit, with exact failure handling), report_attempts_to_successful_install (count = stored+1 saturating, reported every call, reset on success), "
         "report_waited_for_reboot_duration (metric value and exactly-once, nothing on inconsistent clocks).",
